@@ -233,6 +233,8 @@ pub struct Entry {
     pub iofault: fn(&str, &mut Rng, usize, u32, usize, bool) -> Vec<String>,
     /// C14: one value saved with `save_encrypted_file`, then mutated copies through `load_encrypted_file`
     pub encfile: fn(&str, &mut Rng, usize, u32, bool, bool) -> Vec<String>,
+    /// C11: a value and its raw memory: (wire-order sx, hex of size_of::<T>() bytes)
+    pub mem_image: fn(&mut Rng, usize) -> (String, String),
 }
 
 impl Entry {
@@ -247,6 +249,19 @@ fn gen_enc_impl<T: ZooVal + Serialize>(r: &mut Rng, sz: usize, ver: u32) -> (Str
     let canon = x.sx(true);
     let res = bare_enc(ver, &x);
     (wire, canon, res)
+}
+
+fn mem_image_impl<T: ZooVal>(r: &mut Rng, sz: usize) -> (String, String) {
+    let x = T::gen(r, sz);
+    let sx = x.sx(false);
+    let n = std::mem::size_of::<T>();
+    // the object representation, padding included (only the bytes a schema prescribes are ever compared)
+    let mut bytes = Vec::with_capacity(n);
+    let p = &x as *const T as *const u8;
+    for i in 0..n {
+        bytes.push(unsafe { std::ptr::read_volatile(p.add(i)) });
+    }
+    (sx, hex(&bytes))
 }
 
 fn intro_impl<T: ZooVal + Introspect>(name: &str, r: &mut Rng, sz: usize, ncmds: usize) -> (Vec<String>, String, String, usize) {
@@ -288,6 +303,7 @@ pub fn entry<T: ZooVal + Serialize + Deserialize + Packed + WithSchema + Introsp
         intro: intro_impl::<T>,
         iofault: crate::iofault::iofault_case::<T>,
         encfile: crate::crypt::enc_case::<T>,
+        mem_image: mem_image_impl::<T>,
     }
 }
 
@@ -316,6 +332,7 @@ pub fn entry_c<T: ZooVal + Serialize + Deserialize + Packed + WithSchema + Intro
         intro: intro_impl::<T>,
         iofault: |_, _, _, _, _, _| Vec::new(),
         encfile: |_, _, _, _, _, _| Vec::new(),
+        mem_image: mem_image_impl::<T>,
     }
 }
 
@@ -344,6 +361,7 @@ pub fn entry_ni<T: ZooVal + Serialize + Deserialize + Packed + WithSchema + 'sta
         intro: |_, _, _, _| (Vec::new(), String::new(), String::new(), 0),
         iofault: crate::iofault::iofault_case::<T>,
         encfile: crate::crypt::enc_case::<T>,
+        mem_image: mem_image_impl::<T>,
     }
 }
 
